@@ -352,7 +352,19 @@ def replay_trees(rep: Report, cases: list, rng: random.Random, budget: int, sess
         n_train_scalars = sum(int(np.size(lf)) for lf, i in zip(leaves, ids)
                               if (i in c["trainable"]) or (i in extra_tr))
         try:
-            _, npar = get_ravelled_pytree_constructor(tree)
+            ctor, npar = get_ravelled_pytree_constructor(tree)
+            # "calling the constructor at the zero vector returns the initial pytree"; a unit shift moves exactly the
+            # trainable leaves (this is how coupling / autoregressive conditioners parameterise a transformer)
+            if npar == n_train_scalars:
+                z0 = jax.tree_util.tree_leaves(ctor(jnp.zeros(npar)))
+                z1 = jax.tree_util.tree_leaves(ctor(jnp.ones(npar)))
+                same0 = all(np.array_equal(np.asarray(a), np.asarray(b)) for a, b in zip(z0, leaves))
+                moved = {i for a, b, i in zip(z1, leaves, ids) if not np.array_equal(np.asarray(a), np.asarray(b))}
+                want = set(c["trainable"]) | set(extra_tr)
+                if not same0 or moved != want:
+                    rep.violation({**key, "what": "ravelled constructor"},
+                                  f"get_ravelled_pytree_constructor on {c['term']}: zero vector reproduces the tree: {same0}; a unit "
+                                  f"shift moved leaves {sorted(moved)}, the trainable leaves are {sorted(want)}", {"case": c})
             if npar != n_train_scalars:
                 rep.violation({**key, "what": "conditioner parameter count"},
                               f"get_ravelled_pytree_constructor counts {npar} parameters for {c['term']}, the "
